@@ -56,6 +56,8 @@ from struct import pack, unpack
 from lib import vfmt
 
 PROPERTY = 'C11'
+import isolation as _iso
+ISOLATION = [(n, getattr(_iso, n)) for n in ['tag_pool']]      # instance-isolation obligation (harness/isolation.py)
 SOURCE_SITES = [
     dict(name='genExhausted', file='scales/mux/sink.py', func='TagPool.get', kind='cond',
          marker='self._next == self._max_tag',
